@@ -50,6 +50,11 @@ def catalogue():
     # typed maps of a user file type whose keys look like file names of that type
     P.append(one("po_mapkeys_ext", [], "map<txt> tm, map<file> fm",
                  {"tm": FMAPK("lung.txt", "liver", "liver.txt", "a.b", "txt"), "fm": FMAPK("x.txt", "x", "file")}))
+    # keys that JSON and Go's %q spell differently (control characters, DEL), quotes, backslashes,
+    # blanks and non-ASCII text: the rewritten record must stay valid JSON with the same keys
+    P.append(one("po_mapkeys_ctl", [], "map<txt> tm, map<file> fm",
+                 {"tm": FMAPK("a\x7fb", "esc\x1bx", "bell\x07", "q\"uote", "back\\slash", "sp ace", "\u00e9t\u00e9", "\u2028ls"),
+                  "fm": FMAPK("tab\tx", "nl\nx", "\x01", "plain")}))
     # a struct whose path-ish members (string, map) come before its file member
     P.append(one("po_struct_order", [struct("SM", "string label, map m, file f")], "SM sm, SM[] sms",
                  {"sm": FSM, "sms": const([])}))
